@@ -51,13 +51,14 @@ def sqrtSumEq (A B C : Rat) : Bool := decide (A + B ≤ C) && decide (sq (C - A 
 
 /-! ### line segments -/
 
-/-- `LineSegment.ClosestPoint(point)`; `none` = `(NaN, NaN)` (zero-length segment: `0/0`) -/
-def closestPoint (a b p : Pt) : Option Pt :=
+/-- `LineSegment.ClosestPoint(point)` (after the two `fix:` commits: the whole dot product is
+    divided by `ds`, and a zero-length segment answers its end point instead of `0/0`) -/
+def closestPoint (a b p : Pt) : Pt :=
   let ds := distSq a b
-  if ds = 0 then none
+  if ds = 0 then ⟨a.x, a.y⟩
   else
-    let t := clamp ((p.x - a.x) * (b.x - a.x) + (p.y - a.y) * (b.y - a.y) / ds) 0 1
-    some ⟨a.x + t * (b.x - a.x), a.y + t * (b.y - a.y)⟩
+    let t := clamp (((p.x - a.x) * (b.x - a.x) + (p.y - a.y) * (b.y - a.y)) / ds) 0 1
+    ⟨a.x + t * (b.x - a.x), a.y + t * (b.y - a.y)⟩
 
 /-- `LineSegment.IsPointOnSegment(point)` for a two-point segment -/
 def isPointOnSegment (a b p : Pt) : Bool :=
@@ -87,8 +88,8 @@ def sortPts (l : List (Bool × Pt)) : List (Bool × Pt) := l.foldl (fun acc e =>
 /-- `CalcLineSegmentOverlap(line1, line2)`; `none` = `(nil, false)` -/
 def segOverlap (a b c d : Pt) : Option (Pt × Pt) :=
   match sortPts [(true, a), (true, b), (false, c), (false, d)] with
-  | [_, s1, s2, _] =>
-    let notOverlap := s1.1 == s2.1
+  | [s0, s1, s2, _] =>
+    let notOverlap := s0.1 == s1.1
     let singlePointOverlap := decide (s1.2 = s2.2)
     if notOverlap || singlePointOverlap then none else some (s1.2, s2.2)
   | _ => none
@@ -103,8 +104,8 @@ def rectCentroid (l : List Pt) : Option Pt :=
   if l.length = 0 then none
   else
     let x := sumX l / l.length
-    let _y := sumY l / l.length
-    some ⟨x, x⟩
+    let y := sumY l / l.length
+    some ⟨x, y⟩
 
 /-- `CalcPolygonVerticesCentroid(polygon)` -/
 def verticesCentroid (l : List Pt) : Option Pt :=
